@@ -570,6 +570,27 @@ def parse3(data):
         total = total * 1000 + int(data[i:i + 3])
     return total
 
+def grid_marks(w, h, flag):
+    row = [7] * w
+    m = tuple(bytearray(row) for i in range(h))
+    r2 = m[2]
+    for i in range(3):
+        row = m[i]
+        row[-2] = 0
+        m[i][1] = 1
+        r2[i] = 5
+        if flag:
+            m[-i][0] = 3
+            r2[-i] = 4
+    return m
+
+def bad_iter_local_after(m, n):
+    row = [1]
+    for i in range(n):
+        row = m[i]
+        row[0] = 0
+    return len(row)
+
 def bad_unbound_none(xs):
     for x in xs:
         last = None if x else x
@@ -717,8 +738,12 @@ GOOD = [
          cases=[(d, P.FnSample(lambda xs: sum(xs) if xs and xs[0] != 0x61 else (_ for _ in ()).throw(ValueError('x')),
                                '(fun xs => if xs.isEmpty || xs.head? == some 97 then Except.error PyExc.valueError else Except.ok (xs.foldl (· + ·) 0))'))
                 for d in ([], [0x31], [0x31, 0x32, 0x33, 0x34], [0x61, 0x31], [0x31, 0x32, 0x33, 0x61])]),
+    # round 4: a matrix built in the function, a name that is a plain value before the loop and a view in every iteration,
+    # a view created before the loop and written in the same iteration as `m[i][…]` (i = 2: the same row), `-i` with i = 0
+    dict(path=['grid_marks'], params={'w': I, 'h': I, 'flag': B}, ret=MAT, part=4, samples={'w': [0, 1, 2, 3, 4, 5], 'h': [0, 2, 3, 4, 5]}),
 ]
 BAD = [
+    dict(path=['bad_iter_local_after'], params={'m': MAT, 'n': I}, ret=I, mutates=['m'], part=4),
     dict(path=['bad_unbound_none'], params={'xs': L}, ret=I, part=3),
     dict(path=['bad_call_kw'], params={'f': P.FN([I, I], I), 'a': I}, ret=I, part=3),
     dict(path=['bad_fn_arity'], params={'f': P.FN([I, I], I), 'a': I}, ret=I, part=3),
